@@ -95,6 +95,18 @@ def range_for(lp):
     return rng, kids(decls[-1])[0], lk[-1]
 
 
+def whole_loop(f, l, member=None):
+    """the loop visits every element of a container once: a range-for (over `member` if given), or a counting loop
+    for (i = 0; i < C.size(); ++i) whose variable is stepped by the loop only"""
+    if l["k"] == "CXXForRangeStmt":
+        return member is None or member in render(range_for(l)[0])
+    sh = loop_shape(f, l)
+    if sh is None or sh["dir"] != "up" or not sh["stepped"] or sh["rel"] not in ("<", "!=") or sh["start"] in (None, "continues") or cv(sh["start"]) != 0:
+        return False
+    b = xrender(f, sh["bound"], True).replace(" ", "").replace("(int)", "").replace("(size_t)", "").replace("this->", "")
+    return b.endswith(".size()") and (member is None or b == member + ".size()")
+
+
 def is_jw_type(t):
     return t is not None and t.replace("const ", "").startswith(JW + "<") and not t.rstrip().endswith("&") \
         and not t.rstrip().endswith("*")
@@ -434,7 +446,7 @@ def run(rep, ctx):
                     break
                 loops = [a for a in f.ancestors(sites[0]) if a["k"] in ("ForStmt", "WhileStmt", "DoStmt", "CXXForRangeStmt")]
                 allowed = 1 if caller.endswith(("AddAllUnbridged", "AddUnbridgedConstraintsToBackend")) else 0
-                if len(loops) != allowed or any(l["k"] != "CXXForRangeStmt" for l in loops):
+                if len(loops) != allowed or any(not whole_loop(f, l) for l in loops):
                     ok = False
                     detail = "%s calls %s inside %d loop(s)" % (f.full[:120], callee, len(loops))
                     break
@@ -456,9 +468,8 @@ def run(rep, ctx):
     for qn, member in (("mp::ConstraintKeeper::AddAllUnbridged", "cons_"),
                        ("mp::ConstraintManager::AddUnbridgedConstraintsToBackend", "con_keepers_")):
         for f in all_of(qn)[:1]:
-            lp = [n for n in f.walk() if n["k"] == "CXXForRangeStmt"]
-            rng = render(range_for(lp[0])[0]) if lp else ""
-            w1.check(len(lp) == 1 and member in rng, "range|%s" % qn.split("::")[-1], short_loc(f.loc),
+            lp = [n for n in f.walk() if n["k"] in ("CXXForRangeStmt", "ForStmt", "WhileStmt", "DoStmt")]
+            w1.check(len(lp) == 1 and whole_loop(f, lp[0], member), "range|%s" % qn.split("::")[-1], short_loc(f.loc),
                      "the single loop ranges over %s" % member)
 
     # ---- L1 ----------------------------------------------------------------------------
@@ -1086,12 +1097,28 @@ def run(rep, ctx):
         key = key.split(", ", 2)[-1][:90]
         probs = []
         lp = [n for n in f.walk() if n["k"] == "CXXForRangeStmt"]
-        if len(lp) != 1:
-            raise AnalysisBroken("C20.P1: AddAllUnbridged without a single range-for")
-        _, loopvar, body = range_for(lp[0])
+        index_var = None              # set when the loop counts positions itself (index loop over cons_)
+        if len(lp) == 1:
+            _, loopvar, body = range_for(lp[0])
+        else:
+            # an index loop over all containers: for (i = 0; i < cons_.size(); ++i) with the element bound to a local reference
+            cl = [(n, loop_shape(f, n)) for n in f.walk() if n["k"] in ("ForStmt", "WhileStmt")]
+            cl = [(n, sh) for n, sh in cl if sh is not None and sh["dir"] == "up" and sh["stepped"] and sh["rel"] in ("<", "!=") and
+                  sh["start"] not in (None, "continues") and cv(sh["start"]) == 0 and
+                  xrender(f, sh["bound"], True).replace(" ", "").replace("(int)", "").replace("(size_t)", "").replace("this->", "") == "cons_.size()"]
+            if len(cl) != 1:
+                raise AnalysisBroken("C20.P1: AddAllUnbridged without a single loop over the containers")
+            lpn, sh = cl[0]
+            body = [x for x in lpn.get("c", []) if x is not None][-1]
+            index_var = sh["var"]
+            refs_ = [v for v in walk(body) if v["k"] == "VarDecl" and kids(v) and (v.get("ct") or "").rstrip().endswith("&") and
+                     render(kids(v)[0]).replace(" ", "").replace("this->", "") == "cons_[%s]" % sh["name"]]
+            if len(refs_) != 1:
+                raise AnalysisBroken("C20.P1: the container of an iteration is not bound to one local reference")
+            loopvar = refs_[0]
         cont = loopvar["declId"]
         inner = {n["i"] for n in walk(body)}
-        adds = [v for v in walk(body) if v["k"] == "VarDecl" and v.get("ct") == "bool"]
+        adds = [v for v in walk(body) if v["k"] == "VarDecl" and (v.get("ct") or "").replace("const ", "") == "bool"]
         sts = [c for c in walk(body) if c["k"] == "CXXMemberCallExpr" and c.get("callee") == "mp::ConstraintKeeper::ExportConStatus"]
         acs = [c for c in walk(body) if c["k"] == "CXXMemberCallExpr" and c.get("callee") in api_add]
         aes = [c for c in walk(body) if c["k"] == "CXXMemberCallExpr" and c.get("callee", "").endswith("CopyLink::AddEntry")]
@@ -1164,8 +1191,12 @@ def run(rep, ctx):
             iv = strip(a[0])
             incs = [n for n in walk(body) if n["k"] == "UnaryOperator" and n.get("op") == "++" and strip(kids(n)[0]).get("declId") == iv.get("declId")]
             ivd = [v for v in f.walk() if v["k"] == "VarDecl" and v["declId"] == iv.get("declId")]
-            oki = iv["k"] == "DeclRefExpr" and len(incs) == 1 and len(ivd) == 1 and kids(ivd[0]) and cv(kids(ivd[0])[0]) == 0 and \
-                not [c for c in f.cfg.facts_at(incs[0]) if c[0] in inner] and f.cfg.dominates(st, incs[0])
+            if index_var is not None:
+                # the loop variable itself is the position (0, 1, 2, ... by the loop's own step; not written in the body)
+                oki = iv["k"] == "DeclRefExpr" and iv.get("declId") == index_var and not incs
+            else:
+                oki = iv["k"] == "DeclRefExpr" and len(incs) == 1 and len(ivd) == 1 and kids(ivd[0]) and cv(kids(ivd[0])[0]) == 0 and \
+                    not [c for c in f.cfg.facts_at(incs[0]) if c[0] in inner] and f.cfg.dominates(st, incs[0])
             if oki:
                 others = [u for u in decl_uses(f, iv["declId"]) if u["i"] in inner]
                 for u in others:
